@@ -5,7 +5,10 @@ import (
 	"encoding/json"
 	"errors"
 	"fmt"
+	"io"
+	"net/http"
 	"slices"
+	"strings"
 	"testing"
 	"time"
 
@@ -53,10 +56,34 @@ func RunC01(t *testing.T, spec kernel.Spec) *kernel.Outcome {
 		}
 		pub := key.Public()
 		pub.KeyID, pub.Use = "k1", "sig"
-		ks := staticKeySet{keys: []jose.JSONWebKey{pub}}
+		var ks oidc.KeySet = staticKeySet{keys: []jose.JSONWebKey{pub}}
+		// in one world of three the verifier fetches its keys from a JWKS endpoint (the real remote key set): the
+		// endpoint renames the key now and then (a cache miss follows) and is sometimes down for one request. A
+		// verification that met the outage may fail; the ones after it are judged like all others.
+		var remote *c01JWKS
+		if tape.Sub("cfg01-remote").Bool(1, 3) {
+			remote = &c01JWKS{pub: key.Public()}
+			ks = rp.NewRemoteKeySet(&http.Client{Transport: remote}, "https://op.sim/keys")
+			o.Probe("remote-key-set-worlds")
+		}
 		n := 100 + cfg.Int(100)
 		steps(o, tape, n, func(i int, ch *kernel.Chooser) string {
-			return c01One(o, i, ch, fam.Alg, key, wrong, ks)
+			c01Kid, c01Faulted = "k1", false
+			if remote != nil {
+				if ch.Bool(1, 6) {
+					remote.gen++
+				}
+				if ch.Bool(1, 6) {
+					remote.failNext = ch.Pick("503", "reset", "garbage")
+				}
+				c01Kid = fmt.Sprintf("k%d", remote.gen)
+				remote.hit = false
+			}
+			d := c01One(o, i, ch, fam.Alg, key, wrong, ks)
+			if remote != nil && remote.hit {
+				o.Fault("jwks-" + remote.lastFault)
+			}
+			return d
 		})
 		o.Sample = map[string]any{"seed": spec.Seed, "alg": string(fam.Alg), "cases": o.Trace[:min(len(o.Trace), 12)]}
 		o.Log = append([]string{fmt.Sprintf("config: alg=%s", fam.Alg)}, o.Log...)
@@ -211,7 +238,7 @@ func c01One(o *kernel.Outcome, step int, ch *kernel.Chooser, alg jose.SignatureA
 		sk = wrong
 		c.desc = append(c.desc, "wrong-key")
 	}
-	tok := signRaw(payload, alg, sk.Key, "k1")
+	tok := signRaw(payload, alg, sk.Key, c01Kid)
 	// ---- verifier configuration ----
 	opts := []rp.VerifierOption{rp.WithSupportedSigningAlgorithms(string(alg)), rp.WithIssuedAtOffset(c.offset)}
 	if c.maxAgeIAT > 0 {
@@ -271,7 +298,9 @@ func c01One(o *kernel.Outcome, step int, ch *kernel.Chooser, alg jose.SignatureA
 		}
 	} else {
 		o.Probe("rejected")
-		if holds && !margin {
+		if holds && !margin && c01Faulted {
+			o.Probe("rejected-while-jwks-endpoint-was-down")
+		} else if holds && !margin {
 			o.Violate("C01", "incomplete", "rp.VerifyIDToken", step, "%s: a correctly signed token that meets every condition with more than the rounding margin was rejected: %v", desc, err)
 		}
 	}
@@ -279,6 +308,42 @@ func c01One(o *kernel.Outcome, step int, ch *kernel.Chooser, alg jose.SignatureA
 }
 
 func staticOrSame(ks oidc.KeySet) oidc.KeySet { return ks }
+
+// the kid the current step signs with, and whether the JWKS endpoint failed a request during the current step
+// (one world at a time per process; both are reset at the start of every step)
+var (
+	c01Kid     = "k1"
+	c01Faulted bool
+)
+
+// c01JWKS is the JWKS endpoint of the remote-key-set worlds.
+type c01JWKS struct {
+	pub       jose.JSONWebKey
+	gen       int
+	failNext  string
+	hit       bool
+	lastFault string
+}
+
+func (j *c01JWKS) RoundTrip(req *http.Request) (*http.Response, error) {
+	mk := func(status int, body string) (*http.Response, error) {
+		return &http.Response{StatusCode: status, Status: http.StatusText(status), Header: http.Header{"Content-Type": {"application/json"}}, Body: io.NopCloser(strings.NewReader(body)), Request: req}, nil
+	}
+	if f := j.failNext; f != "" {
+		j.failNext, j.hit, j.lastFault, c01Faulted = "", true, f, true
+		switch f {
+		case "503":
+			return mk(503, `{"message":"down"}`)
+		case "garbage":
+			return mk(200, `{"keys": 7`)
+		}
+		return nil, errors.New("simnet: connection reset by peer")
+	}
+	k := j.pub
+	k.KeyID, k.Use = fmt.Sprintf("k%d", j.gen), "sig"
+	b, _ := json.Marshal(map[string]any{"keys": []jose.JSONWebKey{k}})
+	return mk(200, string(b))
+}
 
 // reference is the executable reading of OIDC Core 3.1.3.7 as the statement summarises it. holds: every
 // conjunct holds; margin: some time conjunct is within the rounding band (either answer is admissible).
